@@ -56,6 +56,10 @@ func main() {
 		for _, n := range nc.ListFuncs(repo) {
 			fmt.Println(n)
 		}
+	case "sweep":
+		// one load, every property, one line per property (used by tools/seed_matrix.py and the
+		// mutation sweep; evidence files are not written)
+		os.Exit(sweep(repo, verif, os.Args[2:]))
 	case "debug":
 		nc.Debug(repo, os.Args[2:])
 	default:
@@ -105,6 +109,68 @@ func runCheck(repo, verif, prop, tier string) int {
 		r.Explanation = expl + " Thorough tier: additionally all obligations of the properties this one relies on (" + fmt.Sprint(nc.ThoroughDeps[prop]) + ") are re-evaluated, with the full syntax of all dependencies loaded."
 	}
 	return r.Finish(verif, start, seed, loadInfo)
+}
+
+func sweep(repo, verif string, props []string) int {
+	if len(props) == 0 {
+		for id := range nc.Registry {
+			props = append(props, id)
+		}
+		sort.Strings(props)
+	}
+	p, err := nc.Load(repo, "quick")
+	if err != nil {
+		fmt.Printf("LOAD-FAILED %v\n", err)
+		return 3
+	}
+	if err := p.LoadFixtures(filepath.Join(verif, "checker", "testdata", "fixtures")); err != nil {
+		fmt.Printf("LOAD-FAILED fixtures: %v\n", err)
+		return 3
+	}
+	known, _ := nc.LoadKnownFindings(filepath.Join(verif, "KNOWN_FINDINGS.txt"))
+	rc := 0
+	for _, prop := range props {
+		fn, ok := nc.Registry[prop]
+		if !ok {
+			continue
+		}
+		r := nc.NewRun(p, prop, "quick")
+		fn(p, r)
+		n := 0
+		var lines []string
+		for _, o := range r.Obs {
+			if o.Status == "discharged" {
+				continue
+			}
+			isKnown := false
+			for _, k := range known {
+				if k.Property == o.Property && k.Key == o.ID && o.Status == "violated" {
+					isKnown = true
+				}
+			}
+			if isKnown {
+				continue
+			}
+			n++
+			if len(lines) < 4 {
+				d := o.Detail
+				if len(d) > 200 {
+					d = d[:200]
+				}
+				lines = append(lines, fmt.Sprintf("  %s %s [%s] %s", o.Status, o.ID, o.Pos, d))
+			}
+		}
+		if n > 0 {
+			rc = 1
+			fmt.Printf("FIRED %s %d\n", prop, n)
+			for _, l := range lines {
+				fmt.Println(l)
+			}
+		} else {
+			fmt.Printf("SILENT %s\n", prop)
+		}
+	}
+	return rc
 }
 
 // replay re-analyses the current tree and prints the obligation named in the record.
